@@ -214,6 +214,8 @@ def run_case(case):
         import warnings
         warnings.simplefilter("ignore")
         comm = MPI.COMM_WORLD
+        if case["sched_seed"] % 3 == 1:
+            comm = comm.Split(0, -rank)          # the same processes numbered in the opposite order to the world communicator
         w = MPI.current_world()
         try:
             h = lay.LayoutSwapper(comm, [dict(g) for g in cfg["groups"]], [p if isinstance(p, int) else list(p) for p in cfg["procs"]],
